@@ -652,13 +652,86 @@ func checkMemoryFencing(c *Ctx, rule string) {
 		}
 		c.Check(from == ssParse("leased"), rule, key+":state-leased", pos, "from-set {leased}", "settle mutation from-set is "+from.String())
 	}
+	// edges on which the lease has been found expired (the complement of a Before(now, LeaseUntil) test)
+	expiredEdgesOf := func(fn *ssa.Function) EdgeSet {
+		out := EdgeSet{}
+		for _, b := range fn.Blocks {
+			for i := range b.Succs {
+				a, ok := edgeAtom(Edge{b, i})
+				if !ok {
+					continue
+				}
+				if call, ok := a.X.(*ssa.Call); ok && a.Op == token.NEQ && isBoolTrue(a.Y) || ok && a.Op == token.EQL && !isBoolTrue(a.Y) {
+					if calleeIs(call, "time", "Time", "Before") && len(call.Call.Args) == 2 {
+						if _, f, ok := fieldOfLoad(call.Call.Args[1]); ok && f == "LeaseUntil" {
+							out.addAll([]Edge{{b, i}})
+						}
+					}
+				}
+			}
+		}
+		return out
+	}
 	for i := range sf.Events {
 		e := &sf.Events[i]
-		if !isLeaseOp(e.Root) || e.Kind == "lease-delete" || e.Fn.Name() != e.Root {
-			continue // expiry happens in the helper on the expired edge (C02.R4 / R3)
+		if !isLeaseOp(e.Root) || e.Kind == "lease-delete" {
+			continue
 		}
 		what := e.Kind + "->" + strings.Trim(e.ToStr, "{}")
-		check(e.Root, e.Fn, e.Instr, what, e.From)
+		if e.Fn.Name() == e.Root {
+			check(e.Root, e.Fn, e.Instr, what, e.From)
+			continue
+		}
+		// the transition sits in a helper: the call in the operation itself is the settle site, unless that call is only
+		// reachable on the expired edge (the expiry release, decided by C02.R4 / C04.R3)
+		var rootFn *ssa.Function
+		for _, m := range p.MethodsOf("queue", "MemoryStore") {
+			if m.Name() == e.Root {
+				rootFn = m
+			}
+		}
+		if rootFn == nil {
+			continue
+		}
+		exp := expiredEdgesOf(rootFn)
+		for _, ci := range allCalls(rootFn, nil) {
+			g := ci.Common().StaticCallee()
+			if g == nil || !IsModuleFunc(g) {
+				continue
+			}
+			if g != e.Fn && !p.Reach(g)[e.Fn] {
+				continue
+			}
+			// expiry release: every path to the call takes an expired edge
+			var expEdges []Edge
+			for k := range exp {
+				expEdges = append(expEdges, k)
+			}
+			if onlyExpired, _ := p.MustPass(rootFn, ci, expEdges); onlyExpired && len(expEdges) > 0 {
+				continue
+			}
+			from := e.From
+			if from == ssTop {
+				// the helper does not re-test the state: take the state established in the operation before the call
+				var se []Edge
+				for _, bb := range rootFn.Blocks {
+					for i2 := range bb.Succs {
+						a, ok := edgeAtom(Edge{bb, i2})
+						if ok && a.Op == token.EQL {
+							if _, ok := sf.stateLoad(a.X); ok {
+								if cs, ok := constState(a.Y); ok && cs == ssParse("leased") {
+									se = append(se, Edge{bb, i2})
+								}
+							}
+						}
+					}
+				}
+				if okp, _ := p.MustPass(rootFn, ci, se); okp && len(se) > 0 {
+					from = ssParse("leased")
+				}
+			}
+			check(e.Root, rootFn, ci, what+" via "+g.Name(), from)
+		}
 	}
 	// Extend: the LeaseUntil store
 	for _, fn := range p.MethodsOf("queue", "MemoryStore") {
